@@ -42,6 +42,13 @@ CONTEXT_DEPENDENT = {
 }
 
 
+def token_level(K) -> bool:
+    """engine-data token classes (Dict, List, Float, ...): `read` is entered by the tokenizer after the opening
+    delimiter was consumed while `write` emits the delimiters, so K.frombytes(x.tobytes()) is not the
+    class's contract; the whole EngineData / EngineData2 payload is (and that is C18's property)."""
+    return K.__module__ == "psd_tools.psd.engine_data" and K.__name__ not in ("EngineData", "EngineData2")
+
+
 def element_classes():
     """every BaseElement subclass defined under psd_tools.psd"""
     import importlib
